@@ -11,7 +11,7 @@ for d in /verif/seeded/*/; do
   [ -f $d/meta.json ] || continue
   prop=$(python3 -c "import json;print(json.load(open('$d/meta.json'))['breaks_property'])")
   log=$(/verif/tools/try_mutant_isolated.sh $d/patch.diff $prop 2>&1)
-  if echo "$log" | grep -q "^VIOLATION"; then res="caught"; else res="MISSED"; echo "$log" | tail -15 > /tmp/run_seeded.$id.missed.log; fi
+  if echo "$log" | grep -q "^VIOLATION"; then res="caught"; elif grep -q "NOT CAUGHT, deliberately" $d/meta.json; then res="not caught (deliberately, see meta.json)"; else res="MISSED"; echo "$log" | tail -15 > /tmp/run_seeded.$id.missed.log; fi
   first=$(echo "$log" | grep -A1 "^VIOLATION" | sed -n 2p | cut -c1-160 | tr '|' '/')
   echo "| $id | $prop | $res | $first |" >> $OUT.tmp
   echo "$id $prop $res"
